@@ -332,7 +332,7 @@ func c12Doc(t *rapid.T) map[string]any {
 	for i := 0; i < len(rows)+1; i++ {
 		one = append(one, map[string]any{"k": float64(i + 1)})
 	}
-	return map[string]any{"t": rows, "u": us, "meta": map[string]any{"ip": "10.0.0.1"}, "grid": grid, "one": one,
+	return map[string]any{"t": rows, "u": us, "meta": map[string]any{"ip": "10.0.0.1"}, "grid": grid, "one": one, "kk": 1.0,
 		"col": map[string]any{"a": map[string]any{"b": 2.0}, "a_b": 1.0, "c": map[string]any{"d_e": 3.0, "f": "x"}, "c_d": map[string]any{"e": 4.0}, "z": "last"},
 		// (two nested objects whose flattened keys coincide, and no flat key with an underscore beside them)
 		"col2": map[string]any{"a": map[string]any{"b_c": "from a.b_c"}, "a_b": map[string]any{"c": "from a_b.c"}, "z": 1.0}}
@@ -467,7 +467,11 @@ func genC12(t *rapid.T) *Bundle {
 			"SELECT id, (SELECT AWAIT((SELECT * FROM dual)) AS x FROM `<-"+root+"u`) AS y FROM %s",
 			"SELECT id, (SELECT * FROM `<-` GROUP BY id) AS s FROM %s",
 			"SELECT id, (SELECT (SELECT * FROM `<-` GROUP BY id) AS s2 FROM dual) AS s FROM %s"), T)
-		if rapid.IntRange(0, 2).Draw(t, "scope_dual") == 0 {
+		if !wrapped && rapid.IntRange(0, 5).Draw(t, "scope_dual_join") == 0 {
+			// dual as a join side copies the scope into ordinary rows; a reshape selector over a CTE as the grouping key
+			q = fmt.Sprintf("WITH c AS (SELECT id, a FROM %s) SELECT `{c}` AS p FROM %s GROUP BY `{c}`", T,
+				g.pick("scope_dual_join_form", "dual JOIN "+T+" y ON dual.kk = y.id", "dual LEFT JOIN "+T+" y ON dual.kk = y.id", T+" y LEFT JOIN dual ON dual.kk = y.id"))
+		} else if rapid.IntRange(0, 2).Draw(t, "scope_dual") == 0 {
 			q = with + fmt.Sprintf("SELECT %s FROM dual", g.pick("scope_whole_row", "`mix=>` AS m", "`::` AS d", "`mix=>` AS m, `::` AS d"))
 		}
 	case "cte_dual_star":
